@@ -20,6 +20,7 @@ type zzFlow struct {
 	skxEncCert    *x509.Certificate
 	parsed        []*x509.Certificate
 	keyIsEC       [2]bool
+	kinds         []int
 }
 
 var zzF zzFlow
@@ -29,7 +30,9 @@ var zzF zzFlow
 func zzScriptReadHandshake(c *Conn) (interface{}, error) {
 	i := zzF.reads
 	zzF.reads++
-	switch vChoice("msg."+strconv.Itoa(i), 7) {
+	k := vChoice("msg."+strconv.Itoa(i), 7)
+	zzF.kinds = append(zzF.kinds, k)
+	switch k {
 	case 0:
 		return &certificateMsg{certificates: [][]byte{{1}, {2}}}, nil
 	case 1:
@@ -113,7 +116,9 @@ func zzStubMasterFromPMS(version uint16, suite *cipherSuite, pms, cr, sr []byte)
 //verif:stub github.com/tjfoc/gmsm/gmtls.masterFromPreMasterSecret zzStubMasterFromPMS
 //verif:unwind 20
 //verif:nomerge
-func zzH_c08_client_flow() {
+func zzH_c08_client_flow() { zzClientFlow(false) }
+
+func zzClientFlow(c15 bool) {
 	zzF = zzFlow{}
 	cfg := &Config{InsecureSkipVerify: true}
 	c := &Conn{config: cfg, vers: VersionGMSSL, isClient: true}
@@ -138,4 +143,28 @@ func zzH_c08_client_flow() {
 		vAssert("completion-implies-verified-key-exchange", zzF.skxVerified && zzF.ckxGenerated)
 	}
 	vReach("end")
+	if c15 && err == nil {
+		// C15: completion only for the one legal order Certificate, ServerKeyExchange, [CertificateRequest], ServerHelloDone
+		k := zzF.kinds
+		legal := (len(k) == 3 && k[0] == 0 && k[1] == 1 && k[2] == 3) || (len(k) == 4 && k[0] == 0 && k[1] == 1 && k[2] == 2 && k[3] == 3)
+		vAssert("completion-only-for-the-legal-message-order", legal)
+	}
 }
+
+// H15-client-flow: the same scripted peer, seen from C15: out-of-order, repeated, omitted or
+// unexpected messages and a closed connection give an error, never completion or a panic.
+//
+//verif:property C15
+//verif:expect-reach end completed
+//verif:bound as zzH_c08_client_flow
+//verif:outside as zzH_c08_client_flow; application data / ChangeCipherSpec at the wrong moment are filtered by readHandshake (record layer), not scripted here
+//verif:stub (*github.com/tjfoc/gmsm/gmtls.Conn).readHandshake zzScriptReadHandshake
+//verif:stub (*github.com/tjfoc/gmsm/gmtls.Conn).sendAlert zzStubSendAlert08
+//verif:stub (*github.com/tjfoc/gmsm/gmtls.Conn).writeRecord zzStubWriteRecord08
+//verif:stub github.com/tjfoc/gmsm/x509.ParseCertificate zzStubParseCertificate
+//verif:stub (*github.com/tjfoc/gmsm/gmtls.eccKeyAgreementGM).processServerKeyExchange zzStubProcessSKX
+//verif:stub (*github.com/tjfoc/gmsm/gmtls.eccKeyAgreementGM).generateClientKeyExchange zzStubGenerateCKX
+//verif:stub github.com/tjfoc/gmsm/gmtls.masterFromPreMasterSecret zzStubMasterFromPMS
+//verif:unwind 100
+//verif:nomerge
+func zzH_c15_client_flow() { zzClientFlow(true) }
